@@ -233,6 +233,7 @@ pub const POINTS: &[&str] = &[
     "ttl.before_enqueue",
     "range.entry",
     "read.pinned",
+    "read.pinned.unlocked",
     "read.before_pread",
     "read.after_pread",
     "deferred.before_pread",
@@ -378,6 +379,12 @@ impl SchedCtl {
 
 thread_local! {
     static THREAD_RNG: RefCell<Option<Rng>> = const { RefCell::new(None) };
+    static THREAD_PREADS: std::cell::Cell<u64> = const { std::cell::Cell::new(0) };
+}
+
+/// Number of device reads (value loads) the calling thread has performed so far.
+pub fn thread_preads() -> u64 {
+    THREAD_PREADS.with(|c| c.get())
 }
 
 // ---------------------------------------------------------------- hub
@@ -409,6 +416,9 @@ impl Monitor for Hub {
         }
     }
     fn sched(&self, point: &'static str, _a: u64, _b: u64) {
+        if point == "read.before_pread" {
+            THREAD_PREADS.with(|c| c.set(c.get() + 1));
+        }
         let ctl = self.sched.read().clone();
         if let Some(ctl) = ctl {
             ctl.at(point);
